@@ -227,9 +227,10 @@ def execActive (c : Cfg σ κ) (s : State σ κ) (a e : σ) (amt : Int) : State 
   if wrap (A.frz - amt) < 0 then (s, .errNoBalance) else
   (saveSub c s e { A with bal := wrap (A.bal + amt), frz := wrap (A.frz - amt) }, .ok)
 
-/-- `ExecTransfer`: the *spellings* are compared, both records are loaded before either is saved. -/
+/-- `ExecTransfer`: rejected when the spellings or the storage keys (`FormatAddrKey`) of `from` and
+`to` coincide (repo commit 3bc3d2b); both records are loaded before either is saved. -/
 def execTransfer (c : Cfg σ κ) (s : State σ κ) (src dst e : σ) (amt : Int) : State σ κ × Res :=
-  if src = dst then (s, .errSame) else
+  if src = dst ∨ c.norm src = c.norm dst then (s, .errSame) else
   if !checkAmount amt then (s, .errAmount) else
   let F := loadSub c s src e
   let T := loadSub c s dst e
@@ -237,10 +238,10 @@ def execTransfer (c : Cfg σ κ) (s : State σ κ) (src dst e : σ) (amt : Int) 
   (saveSub c (saveSub c s e { F with bal := wrap (F.bal - amt) }) e
       { T with bal := wrap (T.bal + amt) }, .ok)
 
-/-- `ExecTransferFrozen`. -/
+/-- `ExecTransferFrozen` (same guard as `ExecTransfer`). -/
 def execTransferFrozen (c : Cfg σ κ) (s : State σ κ) (src dst e : σ) (amt : Int) :
     State σ κ × Res :=
-  if src = dst then (s, .errSame) else
+  if src = dst ∨ c.norm src = c.norm dst then (s, .errSame) else
   if !checkAmount amt then (s, .errAmount) else
   let F := loadSub c s src e
   let T := loadSub c s dst e
